@@ -26,7 +26,7 @@ func Spec_ChooseBiases(available *BiasMap, choose *BiasesParams) *BiasesWithProp
 	var result BiasesWithProps
 	for _, props := range *choose {
 		biasParams := BiasParams{ApplyProbability: 1}
-		utils.DecodeToStruct(props, &biasParams)
+		utils.Spec_DecodeToStruct(props, &biasParams)
 		if biasParams.Disabled {
 			continue
 		}
